@@ -271,7 +271,8 @@ def _accessors(ctx, cfg):
                 arr = getattr(me, nm)
                 arr2 = me[nm]
                 vc.check("MetricEvaluator/attribute and item access give the values in order[%s L=%d]" % (nm, L),
-                         len(arr) == L and all(arr[i] is hist[i][1][nm] for i in range(L)) and all(arr2[i] is hist[i][1][nm] for i in range(L)))
+                         np.shape(arr) == (L,) and np.shape(arr2) == (L,) and all(arr[i] is hist[i][1][nm] for i in range(L))
+                         and all(arr2[i] is hist[i][1][nm] for i in range(L)), "shapes %s, %s for %d evaluations" % (np.shape(arr), np.shape(arr2), L))
                 for idx in list(range(-L, L)) + [None]:
                     want = hist[idx if idx is not None else -1][1][nm] if L else None
                     if L:
@@ -303,7 +304,7 @@ def _accessors(ctx, cfg):
                     for stat, plural in (("mean", "means"), ("variance", "variances"), ("std_error", "std_errors")):
                         a1, a2, a3 = getattr(stats, stat), getattr(stats, plural), stats[stat]
                         vc.check("ObservableStatistics/%s and %s give the values in order[%s L=%d]" % (stat, plural, nm, L),
-                                 all(a1[i] is ohist[i][1][nm][stat] and a2[i] is ohist[i][1][nm][stat] and a3[i] is ohist[i][1][nm][stat] for i in range(L)))
+                                 np.shape(a1) == (L,) and np.shape(a2) == (L,) and np.shape(a3) == (L,) and all(a1[i] is ohist[i][1][nm][stat] and a2[i] is ohist[i][1][nm][stat] and a3[i] is ohist[i][1][nm][stat] for i in range(L)))
                     vc.check("ObservableStatistics/num_samples[%s L=%d]" % (nm, L), stats.num_samples.tolist() == [10] * L)
                     try:
                         stats.bogus
